@@ -54,7 +54,12 @@ def rand_el(rng, depth=0, big=False):
     if k == "call":
         return ["call", rng.choice(CALLS)]
     if k == "var":
-        return ["var", rng.choice("xyz"), rng.choice(["inc", "dbl", "neg", "half"])]
+        v = ["var", rng.choice("xyz"), rng.choice(["inc", "dbl", "neg", "half"])]
+        if rng.random() < 0.2:
+            # a variable's keyword attributes are data, whatever they are called
+            v.append(rng.choice([{"run": "2019B"}, {"fill": 7}, {"compute": "c"},
+                                 {"request": 0}, {"run": 0, "unit": "cm"}]))
+        return v
     if k == "filter":
         return ["filter", rng.choice(PREDN)]
     if k == "slice":
@@ -157,6 +162,11 @@ def cases(tier, seed):
             fl.append([x, {"i": j}] if withctx else x)
         yield {"k": "prog", "els": els, "flow": fl, "nest_seed": rng.randint(0, 10 ** 9),
                "big": 1}
+    # chains of hundreds of elements (well below what the interpreter's recursion limit allows
+    # for a chain of generators: about 990 on the unchanged tree)
+    for n in (150, 300, 460, 700, 900):
+        for what in ("call", "mixed"):
+            yield {"k": "longchain", "n": n, "what": what}
     # ill-typed arguments at every position (finite table, enumerated)
     bads = ["int", "str", "none", "onlyfill", "run_noncallable", "onlycompute", "dict",
             "fillrequest_only", "str_percent", "str_format", "list_percent", "dict_percent",
@@ -278,6 +288,17 @@ class Pages(object):
 
     def __len__(self):
         return len(self.vals)
+
+
+class _ListSource(object):
+    """A picklable, deep-copyable callable that generates the flow anew on every call."""
+
+    def __init__(self, vals):
+        self.vals = vals
+
+    def __call__(self):
+        import copy
+        return iter(copy.deepcopy(self.vals))
 
 
 class Indexed(object):
@@ -428,6 +449,43 @@ def run_case(r, obs):
     import lena.flow
     import random
     k = r["k"]
+    if k == "longchain":
+        n = r["n"]
+        obs.nontrivial = True
+
+        def els():
+            out = []
+            for i in range(n):
+                if r["what"] == "call" or i % 3:
+                    out.append(gen.func("inc"))
+                elif i % 2:
+                    out.append(lena.flow.Filter(gen.pred("true")))
+                else:
+                    out.append(lena.core.Sequence(gen.func("inc")))
+            return out
+        xs = [1, 5, (2, {"a": 1})]
+
+        def ref():
+            f = iter(list(xs))
+            for el in els():
+                f = T(el, f)
+            return f
+        expected = outcome(ref)
+        for name, thunk in (
+                ("flat", lambda: lena.core.Sequence(*els()).run(iter(list(xs)))),
+                ("halves", lambda: (lambda e: lena.core.Sequence(
+                    lena.core.Sequence(*e[:n // 2]), lena.core.Sequence(*e[n // 2:])
+                ).run(iter(list(xs))))(els())),
+                ("blocks-of-7", lambda: (lambda e: lena.core.Sequence(
+                    *[lena.core.Sequence(*e[i:i + 7]) for i in range(0, n, 7)]
+                ).run(iter(list(xs))))(els())),
+                ("source-tail", lambda: lena.core.Source(list(xs), *els())())):
+            got = outcome(thunk)
+            obs.count("arrangements")
+            obs.check(got == expected, "arrangement-differs:long-chain:" + name,
+                      "a chain of %d elements (%s) as %s gives %r, the manual fold %r"
+                      % (n, r["what"], name, got, expected))
+        return
     if k == "prog":
         els_r, flow_r = r["els"], r["flow"]
 
@@ -578,6 +636,62 @@ def run_case(r, obs):
             obs.check(got3 == exp3, "source-interleaved-flows-differ",
                       "two live flows of one Source(list, e1..en) give %r, manual folds give %r "
                       "(els=%r flow=%r)" % (got3, exp3, els_r, flow_r))
+        # a history with copies: run, copy the container, run the copy, run the original again,
+        # run the copy again - the copy is a sequence of copies of the elements (what
+        # SplitIntoBins / MapBins / Vectorize do with the sequences they are given)
+        import copy as _copy
+        import pickle as _pickle
+        if not r.get("big") or len(flow_r) <= 40:
+            def ref_hist(cp):
+                vals, els = flow(), fresh()
+
+                def fold(es):
+                    f = iter(_copy.deepcopy(vals))
+                    for el in es:
+                        f = T(el, f)
+                    return gen.freeze(list(f))
+                res = [fold(els)]
+                els2 = cp(els)
+                res.append(fold(els2))
+                res.append(fold(els))
+                res.append(fold(els2))
+                return res
+
+            def real_hist(cp, mk):
+                vals = flow()
+                s1 = mk(fresh())
+                runit = (lambda s: gen.freeze(list(s.run(iter(_copy.deepcopy(vals)))))) \
+                    if mk is not _mk_source else \
+                    (lambda s: gen.freeze(list(s())))
+                res = [runit(s1)]
+                s2 = cp(s1)
+                res.append(runit(s2))
+                res.append(runit(s1))
+                res.append(runit(s2))
+                return res
+
+            def _mk_seq(es):
+                return lena.core.Sequence(*es)
+
+            def _mk_nested(es):
+                return lena.core.Sequence(*random_nest(random.Random(r["nest_seed"]), es))
+
+            def _mk_source(es):
+                return lena.core.Source(_ListSource(flow()), *es)
+            for cpname, cp in (("deepcopy", _copy.deepcopy),
+                               ("pickle", lambda o: _pickle.loads(_pickle.dumps(o)))):
+                exp_h = outcome(lambda: ref_hist(cp))
+                if exp_h[0] == "exc":
+                    continue        # the elements themselves cannot be copied this way
+                for mkname, mk in (("sequence", _mk_seq), ("nested", _mk_nested),
+                                   ("source", _mk_source)):
+                    got_h = outcome(lambda: real_hist(cp, mk))
+                    obs.count("arrangements")
+                    obs.count("copy_histories")
+                    obs.check(got_h == exp_h, "copy-history-differs:%s:%s" % (cpname, mkname),
+                              "run, %s, run the copy, run the original, run the copy of a %s gives "
+                              "%r; the same history on the elements and their copies gives %r "
+                              "(els=%r flow=%r)" % (cpname, mkname, got_h, exp_h, els_r, flow_r))
         if "'seqsub'" in repr(els_r):
             # flatten() documents that it dissolves every LenaSequence; a subclass with its own
             # run is not something the flattened arrangement can preserve
